@@ -33,7 +33,8 @@ KEEP_PREFIX = 0
 SIZES = {"quick": 1, "thorough": 5}      # passes of the dynamic harnesses (each pass = a different run order)
 RULE = ("exhaustive: every function body under pkg/adapters/** that calls sentinel.Entry (one program per distinct path through "
         "its option tests) x the six scenarios {blocked, admitted} x {handler ok, err, panic}, judged by the kernel (theorem) and by "
-        "the compiled driver; dynamic part: every driven entry point x scenario x {default rejection, custom fallback}, run order "
+        "the compiled driver; dynamic part: every driven entry point x scenario x {default rejection, custom fallback} plus the admitted scenarios "
+        "with a clock stepping backwards inside the handler (and harness-specific variants: iris forced rules, micro single options), run order "
         "shuffled from the seed; non-trivial = the pair exercises the contract (all do); distinct by (entry point key, scenario, "
         "fallback variant)")
 
